@@ -469,7 +469,8 @@ macro_rules! impl_nio_read_buf {
                 let start_time = $crate::common::now();
                 let mut left_time = $crate::syscall::recv_time_limit($fd);
                 let mut received = 0;
-                let mut r = -1;
+                // a zero-length request transfers nothing and succeeds
+                let mut r = 0;
                 while received < $len && left_time > 0 {
                     r = self.inner.$syscall(
                         fn_ptr,
@@ -564,7 +565,8 @@ macro_rules! impl_nio_read_iovec {
                 };
                 let mut length = 0;
                 let mut received = 0usize;
-                let mut r = -1;
+                // a request whose iovecs are all empty transfers nothing and succeeds
+                let mut r = 0;
                 let mut index = 0;
                 for iovec in &vec {
                     let stage = length;
@@ -702,7 +704,8 @@ macro_rules! impl_nio_write_buf {
                 let start_time = $crate::common::now();
                 let mut left_time = $crate::syscall::send_time_limit($fd);
                 let mut sent = 0;
-                let mut r = -1;
+                // a zero-length request transfers nothing and succeeds
+                let mut r = 0;
                 while sent < $len && left_time > 0 {
                     r = self.inner.$syscall(
                         fn_ptr,
@@ -797,7 +800,8 @@ macro_rules! impl_nio_write_iovec {
                 };
                 let mut length = 0;
                 let mut sent = 0usize;
-                let mut r = -1;
+                // a request whose iovecs are all empty transfers nothing and succeeds
+                let mut r = 0;
                 let mut index = 0;
                 for iovec in &vec {
                     let stage = length;
